@@ -21,16 +21,37 @@ type c17Case struct {
 	Path  string // new-task | new-epic | set | plan-epic | plan-task
 	Mode  string // json | flags | bodystdin
 	Text  string
+	Torn  bool // run on the store whose log ends in a torn fragment (appends go through the healing rewrite)
 }
 
 func (c c17Case) String() string {
-	return fmt.Sprintf("%s via %s/%s text=%q", c.Field, c.Path, c.Mode, clipS(c.Text, 40))
+	torn := ""
+	if c.Torn {
+		torn = " (log with torn tail)"
+	}
+	return fmt.Sprintf("%s via %s/%s text=%q%s", c.Field, c.Path, c.Mode, clipS(c.Text, 40), torn)
 }
 
 // build returns the request and, for `set`, needs an existing target id.
 func (c c17Case) build(target string) (core.Req, bool) {
 	other := "fixed"
 	switch c.Path {
+	case "new-task+state", "new-task+claim", "new-task+result":
+		// creation with a follow-up in the same request: the text must be stored exactly as for a plain creation
+		if c.Mode != "json" {
+			return core.Req{}, false
+		}
+		m := map[string]string{"title": other}
+		m[c.Field] = c.Text
+		switch c.Path {
+		case "new-task+state":
+			m["state"] = "done"
+		case "new-task+claim":
+			m["claim"] = "agent-c"
+		default:
+			m["result_path"], m["result_summary"] = "out.txt", "attached at creation"
+		}
+		return core.R("", "--json", "new", "task").In(jsonStr(m)), true
 	case "new-task", "new-epic":
 		kind := strings.TrimPrefix(c.Path, "new-")
 		switch c.Mode {
@@ -121,6 +142,8 @@ func runC17(env *core.Env) {
 	fx := NewFix(env, w0)
 	target := fx.NewTask(map[string]interface{}{"title": "target", "body": "original body"})
 	base := fx.Store()
+	base["out.txt"] = []byte("result\n")
+	tornBase := tornVariants(base)[0]
 	var texts []string
 	for _, a := range c17Alphabet {
 		texts = append(texts, a)
@@ -146,7 +169,8 @@ func runC17(env *core.Env) {
 	huge := []string{strings.Repeat("b", 10*1024*1024-600), strings.Repeat("b", 10*1024*1024+1)}
 	type combo struct{ path, mode string }
 	combos := []combo{{"new-task", "json"}, {"new-task", "flags"}, {"new-task", "bodystdin"}, {"new-epic", "json"}, {"new-epic", "flags"}, {"new-epic", "bodystdin"},
-		{"set", "json"}, {"set", "flags"}, {"set", "bodystdin"}, {"plan-epic", "json"}, {"plan-task", "json"}}
+		{"set", "json"}, {"set", "flags"}, {"set", "bodystdin"}, {"plan-epic", "json"}, {"plan-task", "json"},
+		{"new-task+state", "json"}, {"new-task+claim", "json"}, {"new-task+result", "json"}}
 	var cases []c17Case
 	for _, t := range texts {
 		if !utf8.ValidString(t) {
@@ -164,6 +188,15 @@ func runC17(env *core.Env) {
 	for _, t := range huge {
 		for _, cb := range []combo{{"new-task", "json"}, {"new-task", "bodystdin"}, {"set", "json"}, {"set", "bodystdin"}} {
 			cases = append(cases, c17Case{Field: "body", Path: cb.path, Mode: cb.mode, Text: t})
+			cases = append(cases, c17Case{Field: "body", Path: cb.path, Mode: cb.mode, Text: t, Torn: true})
+		}
+	}
+	// the single symbols once more on the torn log, through every path
+	for _, t := range c17Alphabet {
+		for _, f := range []string{"title", "body"} {
+			for _, cb := range combos {
+				cases = append(cases, c17Case{Field: f, Path: cb.path, Mode: cb.mode, Text: "x" + t + "y", Torn: true})
+			}
 		}
 	}
 	conf := newConformer(len(cases)/280+1, 300)
@@ -179,6 +212,10 @@ func runC17(env *core.Env) {
 		if !ok {
 			atomic.AddInt64(&skipped, 1)
 			return
+		}
+		base := base
+		if c.Torn {
+			base = tornBase
 		}
 		base.Materialize(w.Proj)
 		req.Cwd = w.Proj
@@ -207,7 +244,7 @@ func runC17(env *core.Env) {
 			if r := w.Run(core.R(w.Proj, "--json", "list", "--all")); r.Exit != 0 {
 				bad("store-unreadable-after-rejected-text", clipS(string(r.Err), 200), Assert{Kind: "exit_nonzero", Step: 1}, Assert{Kind: "read_fails", Step: 1})
 			}
-			if c10Diff(base, after) != "" {
+			if string(base.Log()) != string(after.Log()) { // (a stale plans.jsonl.tmp left by a refused rewrite is not store state)
 				bad("rejected-but-written", c10Diff(base, after), Assert{Kind: "exit_nonzero", Step: 1}, Assert{Kind: "log_differs", Step: 1, Other: 0})
 			}
 			return
@@ -222,7 +259,7 @@ func runC17(env *core.Env) {
 		var m map[string]interface{}
 		json.Unmarshal(res.Out, &m)
 		switch c.Path {
-		case "new-task", "new-epic":
+		case "new-task", "new-epic", "new-task+state", "new-task+claim", "new-task+result":
 			id = str(m, "id")
 		case "plan-epic":
 			ep, _ := m["epic"].(map[string]interface{})
